@@ -99,12 +99,20 @@ var goroutineHdr = regexp.MustCompile(`(?m)^goroutine \d+ (?:gp=\S+ m=\S+(?: mp=
 func classifyDump(dump string) string {
 	blocks := strings.Split(dump, "\n\n")
 	assignerSend, monitorAlive, mainBlocked := false, false, false
+	progressing := false
 	for _, b := range blocks {
 		m := goroutineHdr.FindStringSubmatch(b)
 		if m == nil {
 			continue
 		}
 		state := m[1]
+		if strings.HasPrefix(state, "running") || strings.HasPrefix(state, "runnable") || strings.HasPrefix(state, "syscall") {
+			// some goroutine of the compiler was still executing when the deadline passed: the process was
+			// slow (a loaded machine), not stuck
+			if !strings.Contains(b, "os/signal") && !strings.Contains(b, "runtime.ensureSigM") {
+				progressing = true
+			}
+		}
 		switch {
 		case strings.Contains(b, "bondgo.(*BondgoRuninfo).Var_assigner"):
 			if strings.HasPrefix(state, "chan send") {
@@ -120,6 +128,9 @@ func classifyDump(dump string) string {
 	}
 	if assignerSend && !monitorAlive && mainBlocked {
 		return "hang:D8"
+	}
+	if progressing {
+		return "slow"
 	}
 	return "hang"
 }
